@@ -500,86 +500,44 @@ func plainBool(c *Ctx, rule, key string, f *fieldImpl) {
 	}
 }
 
-// unpackBoolsOrder evaluates the array literal returned by the runtime's byte unpacker with the bit-provenance domain.
+// unpackBoolsOrder interprets the runtime's byte unpacker (the func(byte) [8]bool that GetBools calls) abstractly on a
+// symbolic byte: element k of the result must be exactly bit k of the byte.
 func unpackBoolsOrder(u *Universe) string {
-	p := u.Pkgs[rtPath]
-	gb := findFuncDecl(p, "GetBools")
+	gb := u.Func(rtPath, "GetBools")
 	if gb == nil {
 		return "parquet.GetBools not found"
 	}
-	// the function GetBools calls with a single byte and that returns [8]bool
-	var unpack *ast.FuncDecl
-	ast.Inspect(gb, func(n ast.Node) bool {
-		if call, ok := n.(*ast.CallExpr); ok {
-			if id, ok := call.Fun.(*ast.Ident); ok {
-				if fd := declOf(p, p.TypesInfo.Uses[id]); fd != nil && fd.Type.Results != nil && len(fd.Type.Results.List) == 1 {
-					if at, ok := p.TypesInfo.Types[fd.Type.Results.List[0].Type].Type.Underlying().(*types.Array); ok && at.Len() == 8 {
-						unpack = fd
+	var unpack *ssa.Function
+	for _, b := range gb.Blocks {
+		for _, ins := range b.Instrs {
+			if call, ok := ins.(*ssa.Call); ok {
+				if sc := call.Call.StaticCallee(); sc != nil && u.InUniverse(sc) && sc.Signature.Results().Len() == 1 && len(sc.Params) == 1 {
+					if at, ok := sc.Signature.Results().At(0).Type().Underlying().(*types.Array); ok && at.Len() == 8 {
+						unpack = sc
 					}
 				}
 			}
 		}
-		return true
-	})
+	}
 	if unpack == nil {
 		return "GetBools does not unpack bytes through a func(byte) [8]bool"
 	}
-	var lit *ast.CompositeLit
-	var input types.Object
-	for _, f := range unpack.Type.Params.List {
-		for _, n := range f.Names {
-			input = p.TypesInfo.Defs[n]
-		}
+	res, err := bpRun(u, unpack, []aval{symInput(0, 8)})
+	if err != "" {
+		return "abstract interpretation of " + unpack.Name() + " is undecided: " + err
 	}
-	ast.Inspect(unpack.Body, func(n ast.Node) bool {
-		if ret, ok := n.(*ast.ReturnStmt); ok && len(ret.Results) == 1 {
-			lit, _ = ret.Results[0].(*ast.CompositeLit)
-		}
-		return true
-	})
-	if lit == nil || len(lit.Elts) != 8 {
-		return "the byte unpacker does not return an 8-element literal"
+	arr, ok := res[0].(aArr)
+	if !ok || len(arr.cells) != 8 {
+		return "the byte unpacker does not return 8 booleans"
 	}
-	// local aliases of the input (x := uint8(data))
-	aliases := map[types.Object]bool{input: true}
-	ast.Inspect(unpack.Body, func(n ast.Node) bool {
-		if as, ok := n.(*ast.AssignStmt); ok && as.Tok == token.DEFINE && len(as.Lhs) == 1 && len(as.Rhs) == 1 {
-			rhs := as.Rhs[0]
-			if call, ok := rhs.(*ast.CallExpr); ok && len(call.Args) == 1 && p.TypesInfo.Types[call.Fun].IsType() {
-				rhs = call.Args[0]
+	for k, c := range arr.cells {
+		bv, ok := c.v.(aBool)
+		if !ok || bv.b != (bit{k: 2, i: 0, b: k}) {
+			got := "?"
+			if ok {
+				got = bv.b.String()
 			}
-			if id, ok := rhs.(*ast.Ident); ok && aliases[p.TypesInfo.Uses[id]] {
-				if l, ok := as.Lhs[0].(*ast.Ident); ok {
-					aliases[p.TypesInfo.Defs[l]] = true
-				}
-			}
-		}
-		return true
-	})
-	e := &bpEval{info: p.TypesInfo, scalars: aliases}
-	for k, el := range lit.Elts {
-		be, ok := el.(*ast.BinaryExpr)
-		if !ok || (be.Op != token.EQL && be.Op != token.NEQ) {
-			return fmt.Sprintf("element %d of the unpacker is not a bit test", k)
-		}
-		v, err := e.eval(be.X)
-		if err != nil {
-			return fmt.Sprintf("element %d of the unpacker: %v", k, err)
-		}
-		cv := p.TypesInfo.Types[be.Y].Value
-		one := cv != nil && constant.Compare(cv, token.EQL, constant.MakeInt64(1))
-		zero := cv != nil && constant.Compare(cv, token.EQL, constant.MakeInt64(0))
-		if !((be.Op == token.EQL && one) || (be.Op == token.NEQ && zero)) {
-			return fmt.Sprintf("element %d of the unpacker is not `bit == 1`", k)
-		}
-		for i, b := range v {
-			want := bit{}
-			if i == 0 {
-				want = bit{k: 2, i: 0, b: k}
-			}
-			if b != want {
-				return fmt.Sprintf("element %d of the unpacker tests %s at bit %d, want exactly bit %d of the byte", k, b, i, k)
-			}
+			return fmt.Sprintf("element %d of the unpacker is %s, want exactly bit %d of the byte (LSB first)", k, got, k)
 		}
 	}
 	return ""
